@@ -12,113 +12,297 @@ variable {P D M : Type} (S : Spec P D M)
 /-- The cache slot is empty or holds exactly what would be derived from the current primary data. -/
 def Coherent (c : Cell P D) : Prop := c.cache = none ∨ c.cache = some (S.derive c.primary)
 
-/-- The side condition on the mutators: whoever leaves the slot alone does not change what `derive` yields. -/
-def Sound : Prop := ∀ m p, S.act m = .keep → S.derive (S.eff m p) = S.derive p
+/-- The side condition on ONE mutator: if it leaves the slot alone it does not change what `derive` yields; if it
+    patches the slot, the patch of a fresh value is the fresh value for the new primary data. -/
+def SoundAt (m : M) : Prop :=
+  (S.act m = .keep → ∀ p, S.derive (S.eff m p) = S.derive p) ∧
+  (S.act m = .update → ∀ p, S.upd m (S.derive p) = S.derive (S.eff m p))
+
+def Sound : Prop := ∀ m, SoundAt S m
+
+/-- The mutators of a history all satisfy the side condition. -/
+def SoundOn (evs : List (Ev M)) : Prop := ∀ m, Ev.mutate m ∈ evs → SoundAt S m
 
 theorem answer_of_coherent {c : Cell P D} (h : Coherent S c) : S.answer c = S.derive c.primary := by
   unfold Spec.answer
   rcases h with h | h <;> simp [h]
 
-theorem coherent_step (hs : Sound S) {c : Cell P D} (h : Coherent S c) (e : Ev M) : Coherent S (S.step c e) := by
-  cases e with
-  | query =>
-    right
-    simp [Spec.step, answer_of_coherent S h]
-  | mutate m =>
-    unfold Spec.step
-    cases ha : S.act m with
-    | drop => left; simp [Action.apply, ha]
-    | recompute => right; simp [Action.apply, ha]
-    | keep =>
-      rcases h with h | h
-      · left; simp [Action.apply, h, ha]
-      · right; simp [Action.apply, h, ha, hs m c.primary ha]
+theorem coherent_query {c : Cell P D} (h : Coherent S c) : Coherent S (S.step c .query) := by
+  right
+  simp [Spec.step, answer_of_coherent S h]
 
-theorem coherent_run (hs : Sound S) : ∀ (evs : List (Ev M)) {c : Cell P D}, Coherent S c → Coherent S (S.run c evs)
-  | [], _, h => h
-  | e :: es, _, h => coherent_run hs es (coherent_step S hs h e)
+theorem coherent_mutate {m : M} (hs : SoundAt S m) {c : Cell P D} (h : Coherent S c) : Coherent S (S.step c (.mutate m)) := by
+  unfold Spec.step
+  cases ha : S.act m with
+  | drop => left; simp [Action.apply, ha]
+  | recompute => right; simp [Action.apply, ha]
+  | update =>
+    rcases h with h | h
+    · left; simp [Action.apply, h, ha]
+    · right; simp [Action.apply, h, ha, hs.2 ha c.primary]
+  | keep =>
+    rcases h with h | h
+    · left; simp [Action.apply, h, ha]
+    · right; simp [Action.apply, h, ha, hs.1 ha c.primary]
 
-theorem answers_fresh (hs : Sound S) : ∀ (evs : List (Ev M)) {c : Cell P D}, Coherent S c →
+theorem SoundOn.tail {e : Ev M} {es : List (Ev M)} (h : SoundOn S (e :: es)) : SoundOn S es :=
+  fun m hm => h m (List.mem_cons_of_mem _ hm)
+
+theorem coherent_run : ∀ (evs : List (Ev M)) {c : Cell P D}, SoundOn S evs → Coherent S c → Coherent S (S.run c evs)
+  | [], _, _, h => h
+  | .query :: es, _, hs, h => coherent_run es hs.tail (coherent_query S h)
+  | .mutate m :: es, _, hs, h => coherent_run es hs.tail (coherent_mutate S (hs m (by simp)) h)
+
+theorem answers_fresh : ∀ (evs : List (Ev M)) {c : Cell P D}, SoundOn S evs → Coherent S c →
     ∀ x ∈ S.answers c evs, x.1 = S.derive x.2
-  | [], _, _, x, hx => by simp [Spec.answers] at hx
-  | .query :: es, c, h, x, hx => by
+  | [], _, _, _, x, hx => by simp [Spec.answers] at hx
+  | .query :: es, c, hs, h, x, hx => by
     simp only [Spec.answers, List.mem_cons] at hx
     rcases hx with rfl | hx
     · exact answer_of_coherent S h
-    · exact answers_fresh hs es (coherent_step S hs h .query) x hx
-  | .mutate m :: es, c, h, x, hx => by
+    · exact answers_fresh es hs.tail (coherent_query S h) x hx
+  | .mutate m :: es, c, hs, h, x, hx => by
     simp only [Spec.answers] at hx
-    exact answers_fresh hs es (coherent_step S hs h (.mutate m)) x hx
+    exact answers_fresh es hs.tail (coherent_mutate S (hs m (by simp)) h) x hx
 
-/-- A `keep` mutator that changes the derived value makes the history query → mutate → query answer stale. -/
+/-- A `keep` mutator makes the history query → mutate → query repeat the first answer. -/
 theorem stale_run (m : M) (p : P) (hk : S.act m = .keep) :
     S.answers ⟨p, none⟩ [.query, .mutate m, .query] = [(S.derive p, p), (S.derive p, S.eff m p)] := by
+  simp [Spec.answers, Spec.step, Spec.answer, hk, Action.apply]
+
+/-- An `update` mutator makes it answer with the patched first answer. -/
+theorem patched_run (m : M) (p : P) (hk : S.act m = .update) :
+    S.answers ⟨p, none⟩ [.query, .mutate m, .query] = [(S.derive p, p), (S.upd m (S.derive p), S.eff m p)] := by
   simp [Spec.answers, Spec.step, Spec.answer, hk, Action.apply]
 
 end generic
 
 /-! ## Table semantics -/
 
-theorem row_sound_of_mem {r : Row} (h : tableSound = true) (hr : r ∈ table) : r.sound = true := by
-  unfold tableSound at h
-  exact List.all_eq_true.mp h r hr
+theorem mem_table (i : Item) (m : Mut) : (⟨i, m, writesOf m, act i m⟩ : Row) ∈ table := by
+  unfold table
+  simp only [List.mem_flatMap, List.mem_map]
+  exact ⟨i, by cases i <;> simp [allItems], m, by cases m <;> simp [allMuts], rfl⟩
 
-/-- If the table passes the decidable check, every item's token semantics satisfies the semantic side condition. -/
-theorem tokenSpec_sound (h : tableSound = true) (i : Item) : Sound (tokenSpec i) := by
-  intro m s hk
-  have hr := row_sound_of_mem h m.mem
-  simp only [tokenSpec] at hk ⊢
-  unfold Row.sound at hr
-  have hw : m.row.writes.all (fun f => !(reads m.row.item).contains f) = true := by
-    rcases Bool.or_eq_true _ _ |>.mp hr with h1 | h2
-    · simp [hk] at h1
-    · exact h2
-  rw [m.item] at hw
-  apply List.map_congr_left
-  intro f hf
-  have hnot : f ∉ m.row.writes := by
-    intro hmem
-    have := List.all_eq_true.mp hw f hmem
-    simp [hf] at this
-  simp [hnot]
+/-- A pair that passes the decidable check satisfies the semantic side condition in the token semantics. -/
+theorem tokenSpec_soundAt (i : Item) (x : Inv) (h : pairSound i x.m = true) : SoundAt (tokenSpec i) x := by
+  constructor
+  · intro hk s
+    simp only [tokenSpec] at hk ⊢
+    have hw : (writesOf x.m).all (fun f => !(reads i).contains f) = true := by
+      unfold pairSound at h
+      rcases Bool.or_eq_true _ _ |>.mp h with h1 | h2
+      · simp [hk] at h1
+      · exact h2
+    apply List.map_congr_left
+    intro f hf
+    have hnot : f ∉ writesOf x.m := by
+      intro hmem
+      have := List.all_eq_true.mp hw f hmem
+      simp [hf] at this
+    simp [hnot]
+  · intro _ s
+    simp only [tokenSpec]
+    rw [List.zipWith_map_right]
+    simp [List.zipWith_self]
 
-/-! ## The table's actions as rewrite rules (each one is an entry of `table`; flipping an entry breaks the proofs that use it) -/
+/-- A pair that fails it is refuted by the history query → mutate → query (the written field gets a new version). -/
+theorem tokenSpec_stale (i : Item) (m : Mut) (h : pairSound i m = false) :
+    ∃ s v, ∃ x ∈ (tokenSpec i).answers ⟨s, none⟩ [.query, .mutate ⟨m, v⟩, .query], x.1 ≠ (reads i).map x.2 := by
+  unfold pairSound at h
+  simp only [Bool.or_eq_false_iff, bne_eq_false_iff_eq] at h
+  obtain ⟨hk, hw⟩ := h
+  have : ∃ f ∈ writesOf m, f ∈ reads i := by
+    obtain ⟨f, hf, hp⟩ := List.all_eq_false.mp hw
+    exact ⟨f, hf, by simpa using hp⟩
+  obtain ⟨f, hf1, hf2⟩ := this
+  refine ⟨fun _ => 0, 1, ?_⟩
+  rw [stale_run (tokenSpec i) ⟨m, 1⟩ _ (by simpa [tokenSpec] using hk)]
+  refine ⟨_, List.mem_cons_of_mem _ (List.mem_singleton.mpr rfl), ?_⟩
+  simp only [tokenSpec]
+  intro heq
+  have h1 := congrArg (fun l => l.all (· == 0)) heq
+  simp only [List.all_map] at h1
+  have hl : ((reads i).all fun f => (fun _ => (0 : Nat)) f == 0) = true := by simp
+  have hr : ((reads i).all fun f' => (if (writesOf m).contains f' then 1 else 0) == 0) = false := by
+    apply Bool.eq_false_iff.mpr
+    intro hall
+    have := List.all_eq_true.mp hall f hf2
+    simp [hf1] at this
+  simp only [Function.comp_def] at h1
+  rw [hl] at h1
+  exact absurd (h1.trans hr) (by decide)
 
-@[simp] theorem act_occupancySet_predSetShape : act .occupancySet .predSetShape = .drop := by decide
-@[simp] theorem act_occupancySet_predSetTrajectory : act .occupancySet .predSetTrajectory = .drop := by decide
-@[simp] theorem act_occupancySet_predSetWheelbase : act .occupancySet .predSetWheelbase = .drop := by decide
-@[simp] theorem act_occupancySet_predSetAssignment : act .occupancySet .predSetAssignment = .keep := by decide
-@[simp] theorem act_occupancySet_predTranslateRotate : act .occupancySet .predTranslateRotate = .drop := by decide
-@[simp] theorem act_occupancySet_obsTranslateRotate : act .occupancySet .obsTranslateRotate = .drop := by decide
-@[simp] theorem act_occupancySet_obsSetPrediction : act .occupancySet .obsSetPrediction = .drop := by decide
-@[simp] theorem act_occupancySet_obsUpdateInitialState : act .occupancySet .obsUpdateInitialState = .drop := by decide
-@[simp] theorem act_initialOccupancy_obsSetInitialState : act .initialOccupancy .obsSetInitialState = .recompute := by decide
-@[simp] theorem act_initialOccupancy_obsSetShape : act .initialOccupancy .obsSetShape = .keep := by decide
-@[simp] theorem act_initialOccupancy_obsTranslateRotate : act .initialOccupancy .obsTranslateRotate = .recompute := by decide
-@[simp] theorem act_initialOccupancy_obsSetPrediction : act .initialOccupancy .obsSetPrediction = .keep := by decide
-@[simp] theorem act_initialOccupancy_obsUpdateInitialState : act .initialOccupancy .obsUpdateInitialState = .recompute := by decide
-@[simp] theorem act_laneletPolygon_lanTranslateRotate : act .laneletPolygon .lanTranslateRotate = .recompute := by decide
-@[simp] theorem act_laneletPolygon_lanConvert2d : act .laneletPolygon .lanConvert2d = .recompute := by decide
-@[simp] theorem act_laneletDistance_lanTranslateRotate : act .laneletDistance .lanTranslateRotate = .keep := by decide
-@[simp] theorem act_laneletDistance_lanConvert2d : act .laneletDistance .lanConvert2d = .drop := by decide
-@[simp] theorem act_laneletInnerDistance_lanTranslateRotate : act .laneletInnerDistance .lanTranslateRotate = .keep := by decide
-@[simp] theorem act_laneletInnerDistance_lanConvert2d : act .laneletInnerDistance .lanConvert2d = .drop := by decide
-@[simp] theorem act_laneletPolygon_netTranslateRotate : act .laneletPolygon .netTranslateRotate = .recompute := by decide
-@[simp] theorem act_laneletPolygon_netConvert2d : act .laneletPolygon .netConvert2d = .recompute := by decide
-@[simp] theorem act_laneletDistance_netTranslateRotate : act .laneletDistance .netTranslateRotate = .keep := by decide
-@[simp] theorem act_laneletDistance_netConvert2d : act .laneletDistance .netConvert2d = .drop := by decide
-@[simp] theorem act_laneletInnerDistance_netTranslateRotate : act .laneletInnerDistance .netTranslateRotate = .keep := by decide
-@[simp] theorem act_laneletInnerDistance_netConvert2d : act .laneletInnerDistance .netConvert2d = .drop := by decide
-@[simp] theorem act_networkIndex_netAddLanelet : act .networkIndex .netAddLanelet = .recompute := by decide
-@[simp] theorem act_networkIndex_netAddFromNetwork : act .networkIndex .netAddFromNetwork = .recompute := by decide
-@[simp] theorem act_networkIndex_netRemoveLanelet : act .networkIndex .netRemoveLanelet = .recompute := by decide
-@[simp] theorem act_networkIndex_netTranslateRotate : act .networkIndex .netTranslateRotate = .recompute := by decide
-@[simp] theorem act_networkIndex_netConvert2d : act .networkIndex .netConvert2d = .keep := by decide
-@[simp] theorem act_networkIndex_netDeepcopy : act .networkIndex .netDeepcopy = .keep := by decide
-@[simp] theorem act_networkIndex_netPickle : act .networkIndex .netPickle = .keep := by decide
-@[simp] theorem act_cycleInit_cycSetElements : act .cycleInit .cycSetElements = .drop := by decide
-@[simp] theorem act_cycleInit_cycSetOffset : act .cycleInit .cycSetOffset = .drop := by decide
-@[simp] theorem act_cycleInit_cycSetActive : act .cycleInit .cycSetActive = .keep := by decide
+/-! ## The table's entries as rewrite rules (one per pair; changing an entry of `act` breaks the rule and the proofs that use it) -/
+
+@[simp] theorem act_occupancySet_predSetShape : act .occupancySet .predSetShape = .drop := rfl
+@[simp] theorem act_occupancySet_predSetTrajectory : act .occupancySet .predSetTrajectory = .drop := rfl
+@[simp] theorem act_occupancySet_predSetWheelbase : act .occupancySet .predSetWheelbase = .drop := rfl
+@[simp] theorem act_occupancySet_predSetAssignment : act .occupancySet .predSetAssignment = .keep := rfl
+@[simp] theorem act_occupancySet_predTranslateRotate : act .occupancySet .predTranslateRotate = .drop := rfl
+@[simp] theorem act_occupancySet_trajTranslateRotate : act .occupancySet .trajTranslateRotate = .keep := rfl
+@[simp] theorem act_occupancySet_trajAppendState : act .occupancySet .trajAppendState = .keep := rfl
+@[simp] theorem act_occupancySet_obsSetInitialState : act .occupancySet .obsSetInitialState = .keep := rfl
+@[simp] theorem act_occupancySet_obsSetShape : act .occupancySet .obsSetShape = .keep := rfl
+@[simp] theorem act_occupancySet_obsTranslateRotate : act .occupancySet .obsTranslateRotate = .drop := rfl
+@[simp] theorem act_occupancySet_obsSetPrediction : act .occupancySet .obsSetPrediction = .drop := rfl
+@[simp] theorem act_occupancySet_obsUpdateInitialState : act .occupancySet .obsUpdateInitialState = .drop := rfl
+@[simp] theorem act_occupancySet_lanTranslateRotate : act .occupancySet .lanTranslateRotate = .keep := rfl
+@[simp] theorem act_occupancySet_lanConvert2d : act .occupancySet .lanConvert2d = .keep := rfl
+@[simp] theorem act_occupancySet_netAddLanelet : act .occupancySet .netAddLanelet = .keep := rfl
+@[simp] theorem act_occupancySet_netAddFromNetwork : act .occupancySet .netAddFromNetwork = .keep := rfl
+@[simp] theorem act_occupancySet_netRemoveLanelet : act .occupancySet .netRemoveLanelet = .keep := rfl
+@[simp] theorem act_occupancySet_netTranslateRotate : act .occupancySet .netTranslateRotate = .keep := rfl
+@[simp] theorem act_occupancySet_netConvert2d : act .occupancySet .netConvert2d = .keep := rfl
+@[simp] theorem act_occupancySet_netDeepcopy : act .occupancySet .netDeepcopy = .keep := rfl
+@[simp] theorem act_occupancySet_netPickle : act .occupancySet .netPickle = .keep := rfl
+@[simp] theorem act_occupancySet_cycSetElements : act .occupancySet .cycSetElements = .keep := rfl
+@[simp] theorem act_occupancySet_cycSetOffset : act .occupancySet .cycSetOffset = .keep := rfl
+@[simp] theorem act_occupancySet_cycSetActive : act .occupancySet .cycSetActive = .keep := rfl
+@[simp] theorem act_initialOccupancy_predSetShape : act .initialOccupancy .predSetShape = .keep := rfl
+@[simp] theorem act_initialOccupancy_predSetTrajectory : act .initialOccupancy .predSetTrajectory = .keep := rfl
+@[simp] theorem act_initialOccupancy_predSetWheelbase : act .initialOccupancy .predSetWheelbase = .keep := rfl
+@[simp] theorem act_initialOccupancy_predSetAssignment : act .initialOccupancy .predSetAssignment = .keep := rfl
+@[simp] theorem act_initialOccupancy_predTranslateRotate : act .initialOccupancy .predTranslateRotate = .keep := rfl
+@[simp] theorem act_initialOccupancy_trajTranslateRotate : act .initialOccupancy .trajTranslateRotate = .keep := rfl
+@[simp] theorem act_initialOccupancy_trajAppendState : act .initialOccupancy .trajAppendState = .keep := rfl
+@[simp] theorem act_initialOccupancy_obsSetInitialState : act .initialOccupancy .obsSetInitialState = .recompute := rfl
+@[simp] theorem act_initialOccupancy_obsSetShape : act .initialOccupancy .obsSetShape = .keep := rfl
+@[simp] theorem act_initialOccupancy_obsTranslateRotate : act .initialOccupancy .obsTranslateRotate = .recompute := rfl
+@[simp] theorem act_initialOccupancy_obsSetPrediction : act .initialOccupancy .obsSetPrediction = .keep := rfl
+@[simp] theorem act_initialOccupancy_obsUpdateInitialState : act .initialOccupancy .obsUpdateInitialState = .recompute := rfl
+@[simp] theorem act_initialOccupancy_lanTranslateRotate : act .initialOccupancy .lanTranslateRotate = .keep := rfl
+@[simp] theorem act_initialOccupancy_lanConvert2d : act .initialOccupancy .lanConvert2d = .keep := rfl
+@[simp] theorem act_initialOccupancy_netAddLanelet : act .initialOccupancy .netAddLanelet = .keep := rfl
+@[simp] theorem act_initialOccupancy_netAddFromNetwork : act .initialOccupancy .netAddFromNetwork = .keep := rfl
+@[simp] theorem act_initialOccupancy_netRemoveLanelet : act .initialOccupancy .netRemoveLanelet = .keep := rfl
+@[simp] theorem act_initialOccupancy_netTranslateRotate : act .initialOccupancy .netTranslateRotate = .keep := rfl
+@[simp] theorem act_initialOccupancy_netConvert2d : act .initialOccupancy .netConvert2d = .keep := rfl
+@[simp] theorem act_initialOccupancy_netDeepcopy : act .initialOccupancy .netDeepcopy = .keep := rfl
+@[simp] theorem act_initialOccupancy_netPickle : act .initialOccupancy .netPickle = .keep := rfl
+@[simp] theorem act_initialOccupancy_cycSetElements : act .initialOccupancy .cycSetElements = .keep := rfl
+@[simp] theorem act_initialOccupancy_cycSetOffset : act .initialOccupancy .cycSetOffset = .keep := rfl
+@[simp] theorem act_initialOccupancy_cycSetActive : act .initialOccupancy .cycSetActive = .keep := rfl
+@[simp] theorem act_laneletPolygon_predSetShape : act .laneletPolygon .predSetShape = .keep := rfl
+@[simp] theorem act_laneletPolygon_predSetTrajectory : act .laneletPolygon .predSetTrajectory = .keep := rfl
+@[simp] theorem act_laneletPolygon_predSetWheelbase : act .laneletPolygon .predSetWheelbase = .keep := rfl
+@[simp] theorem act_laneletPolygon_predSetAssignment : act .laneletPolygon .predSetAssignment = .keep := rfl
+@[simp] theorem act_laneletPolygon_predTranslateRotate : act .laneletPolygon .predTranslateRotate = .keep := rfl
+@[simp] theorem act_laneletPolygon_trajTranslateRotate : act .laneletPolygon .trajTranslateRotate = .keep := rfl
+@[simp] theorem act_laneletPolygon_trajAppendState : act .laneletPolygon .trajAppendState = .keep := rfl
+@[simp] theorem act_laneletPolygon_obsSetInitialState : act .laneletPolygon .obsSetInitialState = .keep := rfl
+@[simp] theorem act_laneletPolygon_obsSetShape : act .laneletPolygon .obsSetShape = .keep := rfl
+@[simp] theorem act_laneletPolygon_obsTranslateRotate : act .laneletPolygon .obsTranslateRotate = .keep := rfl
+@[simp] theorem act_laneletPolygon_obsSetPrediction : act .laneletPolygon .obsSetPrediction = .keep := rfl
+@[simp] theorem act_laneletPolygon_obsUpdateInitialState : act .laneletPolygon .obsUpdateInitialState = .keep := rfl
+@[simp] theorem act_laneletPolygon_lanTranslateRotate : act .laneletPolygon .lanTranslateRotate = .recompute := rfl
+@[simp] theorem act_laneletPolygon_lanConvert2d : act .laneletPolygon .lanConvert2d = .recompute := rfl
+@[simp] theorem act_laneletPolygon_netAddLanelet : act .laneletPolygon .netAddLanelet = .keep := rfl
+@[simp] theorem act_laneletPolygon_netAddFromNetwork : act .laneletPolygon .netAddFromNetwork = .keep := rfl
+@[simp] theorem act_laneletPolygon_netRemoveLanelet : act .laneletPolygon .netRemoveLanelet = .keep := rfl
+@[simp] theorem act_laneletPolygon_netTranslateRotate : act .laneletPolygon .netTranslateRotate = .recompute := rfl
+@[simp] theorem act_laneletPolygon_netConvert2d : act .laneletPolygon .netConvert2d = .recompute := rfl
+@[simp] theorem act_laneletPolygon_netDeepcopy : act .laneletPolygon .netDeepcopy = .keep := rfl
+@[simp] theorem act_laneletPolygon_netPickle : act .laneletPolygon .netPickle = .keep := rfl
+@[simp] theorem act_laneletPolygon_cycSetElements : act .laneletPolygon .cycSetElements = .keep := rfl
+@[simp] theorem act_laneletPolygon_cycSetOffset : act .laneletPolygon .cycSetOffset = .keep := rfl
+@[simp] theorem act_laneletPolygon_cycSetActive : act .laneletPolygon .cycSetActive = .keep := rfl
+@[simp] theorem act_laneletDistance_predSetShape : act .laneletDistance .predSetShape = .keep := rfl
+@[simp] theorem act_laneletDistance_predSetTrajectory : act .laneletDistance .predSetTrajectory = .keep := rfl
+@[simp] theorem act_laneletDistance_predSetWheelbase : act .laneletDistance .predSetWheelbase = .keep := rfl
+@[simp] theorem act_laneletDistance_predSetAssignment : act .laneletDistance .predSetAssignment = .keep := rfl
+@[simp] theorem act_laneletDistance_predTranslateRotate : act .laneletDistance .predTranslateRotate = .keep := rfl
+@[simp] theorem act_laneletDistance_trajTranslateRotate : act .laneletDistance .trajTranslateRotate = .keep := rfl
+@[simp] theorem act_laneletDistance_trajAppendState : act .laneletDistance .trajAppendState = .keep := rfl
+@[simp] theorem act_laneletDistance_obsSetInitialState : act .laneletDistance .obsSetInitialState = .keep := rfl
+@[simp] theorem act_laneletDistance_obsSetShape : act .laneletDistance .obsSetShape = .keep := rfl
+@[simp] theorem act_laneletDistance_obsTranslateRotate : act .laneletDistance .obsTranslateRotate = .keep := rfl
+@[simp] theorem act_laneletDistance_obsSetPrediction : act .laneletDistance .obsSetPrediction = .keep := rfl
+@[simp] theorem act_laneletDistance_obsUpdateInitialState : act .laneletDistance .obsUpdateInitialState = .keep := rfl
+@[simp] theorem act_laneletDistance_lanTranslateRotate : act .laneletDistance .lanTranslateRotate = .keep := rfl
+@[simp] theorem act_laneletDistance_lanConvert2d : act .laneletDistance .lanConvert2d = .drop := rfl
+@[simp] theorem act_laneletDistance_netAddLanelet : act .laneletDistance .netAddLanelet = .keep := rfl
+@[simp] theorem act_laneletDistance_netAddFromNetwork : act .laneletDistance .netAddFromNetwork = .keep := rfl
+@[simp] theorem act_laneletDistance_netRemoveLanelet : act .laneletDistance .netRemoveLanelet = .keep := rfl
+@[simp] theorem act_laneletDistance_netTranslateRotate : act .laneletDistance .netTranslateRotate = .keep := rfl
+@[simp] theorem act_laneletDistance_netConvert2d : act .laneletDistance .netConvert2d = .drop := rfl
+@[simp] theorem act_laneletDistance_netDeepcopy : act .laneletDistance .netDeepcopy = .keep := rfl
+@[simp] theorem act_laneletDistance_netPickle : act .laneletDistance .netPickle = .keep := rfl
+@[simp] theorem act_laneletDistance_cycSetElements : act .laneletDistance .cycSetElements = .keep := rfl
+@[simp] theorem act_laneletDistance_cycSetOffset : act .laneletDistance .cycSetOffset = .keep := rfl
+@[simp] theorem act_laneletDistance_cycSetActive : act .laneletDistance .cycSetActive = .keep := rfl
+@[simp] theorem act_laneletInnerDistance_predSetShape : act .laneletInnerDistance .predSetShape = .keep := rfl
+@[simp] theorem act_laneletInnerDistance_predSetTrajectory : act .laneletInnerDistance .predSetTrajectory = .keep := rfl
+@[simp] theorem act_laneletInnerDistance_predSetWheelbase : act .laneletInnerDistance .predSetWheelbase = .keep := rfl
+@[simp] theorem act_laneletInnerDistance_predSetAssignment : act .laneletInnerDistance .predSetAssignment = .keep := rfl
+@[simp] theorem act_laneletInnerDistance_predTranslateRotate : act .laneletInnerDistance .predTranslateRotate = .keep := rfl
+@[simp] theorem act_laneletInnerDistance_trajTranslateRotate : act .laneletInnerDistance .trajTranslateRotate = .keep := rfl
+@[simp] theorem act_laneletInnerDistance_trajAppendState : act .laneletInnerDistance .trajAppendState = .keep := rfl
+@[simp] theorem act_laneletInnerDistance_obsSetInitialState : act .laneletInnerDistance .obsSetInitialState = .keep := rfl
+@[simp] theorem act_laneletInnerDistance_obsSetShape : act .laneletInnerDistance .obsSetShape = .keep := rfl
+@[simp] theorem act_laneletInnerDistance_obsTranslateRotate : act .laneletInnerDistance .obsTranslateRotate = .keep := rfl
+@[simp] theorem act_laneletInnerDistance_obsSetPrediction : act .laneletInnerDistance .obsSetPrediction = .keep := rfl
+@[simp] theorem act_laneletInnerDistance_obsUpdateInitialState : act .laneletInnerDistance .obsUpdateInitialState = .keep := rfl
+@[simp] theorem act_laneletInnerDistance_lanTranslateRotate : act .laneletInnerDistance .lanTranslateRotate = .keep := rfl
+@[simp] theorem act_laneletInnerDistance_lanConvert2d : act .laneletInnerDistance .lanConvert2d = .drop := rfl
+@[simp] theorem act_laneletInnerDistance_netAddLanelet : act .laneletInnerDistance .netAddLanelet = .keep := rfl
+@[simp] theorem act_laneletInnerDistance_netAddFromNetwork : act .laneletInnerDistance .netAddFromNetwork = .keep := rfl
+@[simp] theorem act_laneletInnerDistance_netRemoveLanelet : act .laneletInnerDistance .netRemoveLanelet = .keep := rfl
+@[simp] theorem act_laneletInnerDistance_netTranslateRotate : act .laneletInnerDistance .netTranslateRotate = .keep := rfl
+@[simp] theorem act_laneletInnerDistance_netConvert2d : act .laneletInnerDistance .netConvert2d = .drop := rfl
+@[simp] theorem act_laneletInnerDistance_netDeepcopy : act .laneletInnerDistance .netDeepcopy = .keep := rfl
+@[simp] theorem act_laneletInnerDistance_netPickle : act .laneletInnerDistance .netPickle = .keep := rfl
+@[simp] theorem act_laneletInnerDistance_cycSetElements : act .laneletInnerDistance .cycSetElements = .keep := rfl
+@[simp] theorem act_laneletInnerDistance_cycSetOffset : act .laneletInnerDistance .cycSetOffset = .keep := rfl
+@[simp] theorem act_laneletInnerDistance_cycSetActive : act .laneletInnerDistance .cycSetActive = .keep := rfl
+@[simp] theorem act_networkIndex_predSetShape : act .networkIndex .predSetShape = .keep := rfl
+@[simp] theorem act_networkIndex_predSetTrajectory : act .networkIndex .predSetTrajectory = .keep := rfl
+@[simp] theorem act_networkIndex_predSetWheelbase : act .networkIndex .predSetWheelbase = .keep := rfl
+@[simp] theorem act_networkIndex_predSetAssignment : act .networkIndex .predSetAssignment = .keep := rfl
+@[simp] theorem act_networkIndex_predTranslateRotate : act .networkIndex .predTranslateRotate = .keep := rfl
+@[simp] theorem act_networkIndex_trajTranslateRotate : act .networkIndex .trajTranslateRotate = .keep := rfl
+@[simp] theorem act_networkIndex_trajAppendState : act .networkIndex .trajAppendState = .keep := rfl
+@[simp] theorem act_networkIndex_obsSetInitialState : act .networkIndex .obsSetInitialState = .keep := rfl
+@[simp] theorem act_networkIndex_obsSetShape : act .networkIndex .obsSetShape = .keep := rfl
+@[simp] theorem act_networkIndex_obsTranslateRotate : act .networkIndex .obsTranslateRotate = .keep := rfl
+@[simp] theorem act_networkIndex_obsSetPrediction : act .networkIndex .obsSetPrediction = .keep := rfl
+@[simp] theorem act_networkIndex_obsUpdateInitialState : act .networkIndex .obsUpdateInitialState = .keep := rfl
+@[simp] theorem act_networkIndex_lanTranslateRotate : act .networkIndex .lanTranslateRotate = .keep := rfl
+@[simp] theorem act_networkIndex_lanConvert2d : act .networkIndex .lanConvert2d = .keep := rfl
+@[simp] theorem act_networkIndex_netAddLanelet : act .networkIndex .netAddLanelet = .update := rfl
+@[simp] theorem act_networkIndex_netAddFromNetwork : act .networkIndex .netAddFromNetwork = .update := rfl
+@[simp] theorem act_networkIndex_netRemoveLanelet : act .networkIndex .netRemoveLanelet = .update := rfl
+@[simp] theorem act_networkIndex_netTranslateRotate : act .networkIndex .netTranslateRotate = .recompute := rfl
+@[simp] theorem act_networkIndex_netConvert2d : act .networkIndex .netConvert2d = .keep := rfl
+@[simp] theorem act_networkIndex_netDeepcopy : act .networkIndex .netDeepcopy = .keep := rfl
+@[simp] theorem act_networkIndex_netPickle : act .networkIndex .netPickle = .keep := rfl
+@[simp] theorem act_networkIndex_cycSetElements : act .networkIndex .cycSetElements = .keep := rfl
+@[simp] theorem act_networkIndex_cycSetOffset : act .networkIndex .cycSetOffset = .keep := rfl
+@[simp] theorem act_networkIndex_cycSetActive : act .networkIndex .cycSetActive = .keep := rfl
+@[simp] theorem act_cycleInit_predSetShape : act .cycleInit .predSetShape = .keep := rfl
+@[simp] theorem act_cycleInit_predSetTrajectory : act .cycleInit .predSetTrajectory = .keep := rfl
+@[simp] theorem act_cycleInit_predSetWheelbase : act .cycleInit .predSetWheelbase = .keep := rfl
+@[simp] theorem act_cycleInit_predSetAssignment : act .cycleInit .predSetAssignment = .keep := rfl
+@[simp] theorem act_cycleInit_predTranslateRotate : act .cycleInit .predTranslateRotate = .keep := rfl
+@[simp] theorem act_cycleInit_trajTranslateRotate : act .cycleInit .trajTranslateRotate = .keep := rfl
+@[simp] theorem act_cycleInit_trajAppendState : act .cycleInit .trajAppendState = .keep := rfl
+@[simp] theorem act_cycleInit_obsSetInitialState : act .cycleInit .obsSetInitialState = .keep := rfl
+@[simp] theorem act_cycleInit_obsSetShape : act .cycleInit .obsSetShape = .keep := rfl
+@[simp] theorem act_cycleInit_obsTranslateRotate : act .cycleInit .obsTranslateRotate = .keep := rfl
+@[simp] theorem act_cycleInit_obsSetPrediction : act .cycleInit .obsSetPrediction = .keep := rfl
+@[simp] theorem act_cycleInit_obsUpdateInitialState : act .cycleInit .obsUpdateInitialState = .keep := rfl
+@[simp] theorem act_cycleInit_lanTranslateRotate : act .cycleInit .lanTranslateRotate = .keep := rfl
+@[simp] theorem act_cycleInit_lanConvert2d : act .cycleInit .lanConvert2d = .keep := rfl
+@[simp] theorem act_cycleInit_netAddLanelet : act .cycleInit .netAddLanelet = .keep := rfl
+@[simp] theorem act_cycleInit_netAddFromNetwork : act .cycleInit .netAddFromNetwork = .keep := rfl
+@[simp] theorem act_cycleInit_netRemoveLanelet : act .cycleInit .netRemoveLanelet = .keep := rfl
+@[simp] theorem act_cycleInit_netTranslateRotate : act .cycleInit .netTranslateRotate = .keep := rfl
+@[simp] theorem act_cycleInit_netConvert2d : act .cycleInit .netConvert2d = .keep := rfl
+@[simp] theorem act_cycleInit_netDeepcopy : act .cycleInit .netDeepcopy = .keep := rfl
+@[simp] theorem act_cycleInit_netPickle : act .cycleInit .netPickle = .keep := rfl
+@[simp] theorem act_cycleInit_cycSetElements : act .cycleInit .cycSetElements = .drop := rfl
+@[simp] theorem act_cycleInit_cycSetOffset : act .cycleInit .cycSetOffset = .drop := rfl
+@[simp] theorem act_cycleInit_cycSetActive : act .cycleInit .cycSetActive = .keep := rfl
 
 /-! ## List facts for the history clause -/
 
